@@ -141,6 +141,13 @@ def generate(rs: int, tier: str, index: int) -> dict:
                     for j in range(len(col)):
                         if ch.chance(0.3):
                             col[j] = ch.choice(big)
+        elif kindc == "int" and kind != "plain" and ch.chance(0.08):
+            # signed against unsigned 64-bit: numpy's common type of the two is float64, which cannot tell
+            # neighbouring integers above 2**53 apart - the comparison has to be made on the integers
+            near = [2**53, 2**53 + 1, 2**53 + 2, 2**62, 2**62 + 1, 2**63 - 1, 2**63 - 2, 1, 0]
+            for lit, dt in ((a, "int64"), (b["poly"], "uint64")):
+                lit["dtype"] = dt
+                lit["coefficients"] = [[(ch.choice(near) if ch.chance(0.7) else abs(v)) for v in col] for col in lit["coefficients"]]
         elif kindc == "float" and kind != "plain" and ch.chance(0.15):
             for lit in (a, b["poly"]):
                 lit["dtype"] = "float32"
@@ -149,6 +156,8 @@ def generate(rs: int, tier: str, index: int) -> dict:
                       "extra_op": ch.below(6), "reach": _reach(ch.sub("r")), "other_options": _other(ch.sub("oo"))})
         if ch.sub("abort").chance(0.15):
             steps[-1]["abort_first"] = ch.sub("abort").below(100000)
+        if ch.sub("thread").chance(0.12):
+            steps[-1]["in_thread"] = True  # the comparisons are evaluated by a thread started while the sort options are in force
         if kind != "plain" and mode == 4 and ch.sub("same").chance(0.6):
             steps[-1]["same_object"] = True  # p compared with p itself, not with an equal copy
         cr = ch.sub("rewrite")
@@ -249,6 +258,33 @@ class Runner:
                 for pol in self.plan["policies"]:
                     yield g, r, pol
 
+    def _evaluate(self, step: dict, left: Any, right: Any, is_complex: bool, got: dict, spellings: dict, mm: dict, pol: str, sid: Any) -> None:
+        """All operators, one of them through the numpy / numpoly spellings, and maximum/minimum."""
+        import numpoly
+
+        for name, opf, fname in OPS:
+            if is_complex and name not in ("eq", "ne"):
+                continue
+            try:
+                got[name] = opf(left, right)
+            except Exception as exc:  # noqa: BLE001
+                self.violate("comparison-raises", name, sid, f"{type(exc).__name__}: {exc}", {"policy": pol})
+                got[name] = None
+        xname, _opf, fname = OPS[step.get("extra_op", 0) % 6]
+        if is_complex:
+            xname, _opf, fname = OPS[4 + step.get("extra_op", 0) % 2]
+        for label, mod in (("numpy", numpy), ("numpoly", numpoly)):
+            try:
+                spellings[label] = getattr(mod, fname)(left, right)
+            except Exception as exc:  # noqa: BLE001
+                spellings[label] = exc
+        if not is_complex:
+            for fn in ("maximum", "minimum"):
+                try:
+                    mm[fn] = getattr(numpoly, fn)(left, right)
+                except Exception as exc:  # noqa: BLE001
+                    mm[fn] = exc
+
     # -- pair --------------------------------------------------------------
     def do_pair(self, step: dict) -> None:
         import numpoly
@@ -317,31 +353,34 @@ class Runner:
             with seams.Env(core.H(self.rs, pol, g, r), sort=pol) as env, reach_options(step.get("reach", "direct"), g, r, step.get("other_options")):
                 env.begin_step(sid)
                 got: Dict[str, Any] = {}
-                for name, opf, fname in OPS:
-                    if is_complex and name not in ("eq", "ne"):
-                        continue
-                    try:
-                        got[name] = opf(left, right)
-                    except Exception as exc:  # noqa: BLE001
-                        self.violate("comparison-raises", name, sid, f"{type(exc).__name__}: {exc}", {"policy": pol})
-                        got[name] = None
-                # one operator through the numpy / numpoly spellings as well
+                spellings: Dict[str, Any] = {}
+                mm: Dict[str, Any] = {}
+
+                def evaluate() -> None:
+                    self._evaluate(step, left, right, is_complex, got, spellings, mm, pol, sid)
+
+                if step.get("in_thread"):
+                    import threading
+
+                    failure: List[BaseException] = []
+
+                    def guarded() -> None:
+                        try:
+                            evaluate()
+                        except BaseException as exc:  # noqa: BLE001
+                            failure.append(exc)
+
+                    worker = threading.Thread(target=guarded, name="sim-worker")
+                    worker.start()
+                    worker.join()
+                    self.bump("probe:evaluated_in_worker_thread")
+                    if failure:
+                        raise failure[0]
+                else:
+                    evaluate()
                 xname, _opf, fname = OPS[step.get("extra_op", 0) % 6]
                 if is_complex:
                     xname, _opf, fname = OPS[4 + step.get("extra_op", 0) % 2]
-                spellings = {}
-                for label, mod in (("numpy", numpy), ("numpoly", numpoly)):
-                    try:
-                        spellings[label] = getattr(mod, fname)(left, right)
-                    except Exception as exc:  # noqa: BLE001
-                        spellings[label] = exc
-                mm = {}
-                if not is_complex:
-                    for fn in ("maximum", "minimum"):
-                        try:
-                            mm[fn] = getattr(numpoly, fn)(left, right)
-                        except Exception as exc:  # noqa: BLE001
-                            mm[fn] = exc
                 ties = env.counters.get("seam:sort.consults_with_tie", 0)
                 self.bump("seam:sort.consults", env.counters.get("seam:sort.consults", 0))
                 self.bump("seam:sort.consults_with_tie", ties)
